@@ -38,6 +38,15 @@ func navDirectedDocs() [][]*model.Value {
 			)
 		}
 		navDocs = append(navDocs, deepSiblingStreams()...)
+		// the same written characters as a symbol-id reference and as plain text (`$4` vs "$4") in
+		// structs that are entered or skipped in every combination
+		for rep := 0; rep < 24; rep++ {
+			navDocs = append(navDocs,
+				[]*model.Value{model.StructV(f("name", model.Int64V(1))), model.StructV(f("$4", model.Int64V(2))), model.StructV(f("name", model.Int64V(3)), f("$4", model.Int64V(4)))},
+				[]*model.Value{model.StructV(f("$4", model.Int64V(1))), model.StructV(f("name", model.Int64V(2))), model.SymV(model.T("$4")), model.SymV(model.T("name"))},
+				[]*model.Value{model.StructV(f("symbols", model.Int64V(1)), f("$7", model.Int64V(2))), model.ListV(model.StructV(f("$7", model.SymV(model.T("$7")))), model.StructV(f("symbols", model.SymV(model.T("symbols")))))},
+			)
+		}
 		// quote and backslash runs inside text that a skip has to scan without decoding (repeated:
 		// every copy is spelled differently)
 		for rep := 0; rep < 16; rep++ {
@@ -50,4 +59,21 @@ func navDirectedDocs() [][]*model.Value {
 		}
 	})
 	return navDocs
+}
+
+// navLiteralDocs are text documents given verbatim: the same characters as an id reference and as
+// text in field names and values, tables declared between structs, comments and long strings glued
+// to container ends.
+var navLiteralDocs = []string{
+	`{$4: 1} {"$4": 2}`,
+	`{"$4": 1} {$4: 2}`,
+	`{'$4': 1} {$4: 2} {'''$4''': 3} {$4: 4, "$4": 5, '$4': 6}`,
+	`{$4: 1} [{"$4": 2}, {$4: 3}] ({'$4': 4} {$4: 5})`,
+	`$ion_symbol_table::{symbols:["a","b"]} {$10: 1} {"$10": 2} {$10: 3, '$10': 4} {a: 5}`,
+	`$ion_symbol_table::{symbols:["a"]} {$10: 1} $ion_symbol_table::{symbols:["b"]} {$10: 2} {"$10": 3} {$10: 4}`,
+	`{$4: $4, "$4": '$4'} {$4: "$4"} ($4 '$4' "$4") [$4, '$4']`,
+	`{a: $7::1} {a: '$7'::2} {a: symbols::3} ['$7'::$7, $7::'$7']`,
+	`[[1, 2]/* c */, 3]/* d */ [4]// e
+ 5`,
+	`{a: '''x''' /* c */ '''y''', b: [ '''p''' '''q''' ], c: ('''r''' '''s''' t)} '''u''' '''v'''`,
 }
